@@ -17,7 +17,9 @@ Put(k, v) == /\ content' = [x \in (DOMAIN content) \cup {k} |-> IF x = k THEN v 
 Del(k) == /\ k \in DOMAIN content
           /\ content' = [x \in (DOMAIN content) \ {k} |-> content[x]]
           /\ hist' = Append(hist, [op |-> "del", k |-> Join(k), v |-> Jsonable(VS(<<>>))])
-Next == Len(hist) < MaxHist /\ ((\E k \in CKeys, v \in CVals : Put(k, v)) \/ (\E k \in CKeys : Del(k)))
+TKey == <<"#", "t", "e", "x", "t">>
+\* (domain of the encoders: the text key holds a non-empty scalar)
+Next == Len(hist) < MaxHist /\ ((\E k \in CKeys, v \in CVals : (k = TKey => IsScalar(v) /\ v # VS(<<>>)) /\ Put(k, v)) \/ (\E k \in CKeys : Del(k)))
 Spec == Init /\ [][Next]_<<content, hist>>
 EO == [apfx |-> "-", kpfx |-> "#", esc |-> TRUE, goempty |-> FALSE]
 RootKey == <<"r">>
@@ -36,7 +38,7 @@ ThmAscending == Ascending(EncodeRoot(Doc, <<>>, EO))
 Emit == (DoEmit /\ Len(hist) = MaxHist) =>
    PrintT(ToJson([f |-> "det", hist |-> hist, x |-> Join(RenderCompact(EncodeRoot(Doc, <<>>, EO), EO)),
                   j |-> Join(JsonOf(Doc, FALSE)), js |-> Join(JsonOf(Doc, TRUE))]))
-cKeys == {<<"-", "a">>, <<"-", "d">>, <<"b">>, <<"c">>, <<"b", "b">>}
+cKeys == {<<"-", "a">>, <<"-", "d">>, <<"b">>, <<"c">>, <<"b", "b">>, TKey}     \* (with the text key: mixed content)
 cVals == {VS(<<>>), VS(<<"x">>), VS(<<"<", "&">>), VM((<<"-", "z">> :> VS(<<"1">>)) @@ (<<"y">> :> VL(<<VS(<<"2">>), VS(<<>>)>>)))}
 cValsQ == {VS(<<>>), VS(<<"<", "&">>), VM((<<"-", "z">> :> VS(<<"1">>)) @@ (<<"y">> :> VL(<<VS(<<"2">>), VS(<<>>)>>)))}
 =============================================================================
